@@ -75,6 +75,11 @@ func (l *LinearRegressor) Apply(inputs []tensor.Tensor) ([]tensor.Tensor, error)
 		return nil, err
 	}
 
+	// The intercepts are optional.
+	if l.intercepts == nil {
+		return []tensor.Tensor{result}, nil
+	}
+
 	result, intercepts, err := ops.UnidirectionalBroadcast(result, l.intercepts)
 	if err != nil {
 		return nil, err
